@@ -81,15 +81,18 @@ func (c *connection) onClose() error {
 func (c *connection) closeBuffer() {
 	onConnect, _ := c.onConnectCallback.Load().(OnConnect)
 	onRequest, _ := c.onRequestCallback.Load().(OnRequest)
-	// if client close the connection, we cannot ensure that the poller is not process the buffer,
-	// so we need to check the buffer length, and if it's an "unclean" close operation, let's give up to reuse the buffer
-	if c.inputBuffer.Len() == 0 || onConnect != nil || onRequest != nil {
-		c.inputBuffer.Close()
+	// Without OnConnect/OnRequest the Reader and the Writer are used from the user's own goroutines,
+	// and nothing serialises those with the close callbacks: a Reader call may be between its length
+	// check and its walk over the nodes, or hold results that stay valid until its Release, while
+	// another goroutine closes the connection. The buffers cannot be recycled then (an empty input
+	// buffer says nothing about a reader that has just consumed it), they are left to the GC.
+	if onConnect == nil && onRequest == nil {
+		return
 	}
-	if c.outputBuffer.Len() == 0 || onConnect != nil || onRequest != nil {
-		c.outputBuffer.Close()
-		barrierPool.Put(c.outputBarrier)
-	}
+	// with handlers the close callbacks run only when no handler task is running
+	c.inputBuffer.Close()
+	c.outputBuffer.Close()
+	barrierPool.Put(c.outputBarrier)
 }
 
 // inputs implements FDOperator.
